@@ -104,14 +104,14 @@ TecmpPayloadPtr TECMP::Decoder::GetDataPayload(const uint8_t* payloadData, const
         case CmpHeader::DataType::canFd:
         {
             auto payload = GetCanPayload(payloadData, size);
-            if (payload->getMessageType() == CmpHeader::MessageType::data && payload->getType() == PayloadType::can)
+            if (payload && payload->getMessageType() == CmpHeader::MessageType::data && payload->getType() == PayloadType::can)
                 return payload;
             break;
         }
         case CmpHeader::DataType::lin:
         {
             auto payload = GetLinPayload(payloadData, size);
-            if (payload->getMessageType() == CmpHeader::MessageType::data && payload->getType() == PayloadType::lin)
+            if (payload && payload->getMessageType() == CmpHeader::MessageType::data && payload->getType() == PayloadType::lin)
                 return payload;
             break;
         }
